@@ -1,7 +1,7 @@
-\* C20 exhaustive model: every 2-call history of the full alphabet in every memory layout
+\* C20 exhaustive model: every 2-call history of the full alphabet (without the container variants of calls, which the 1-call graph covers) in every memory layout
 CONSTANTS
   MaxDepth = 2
-  BaseSel = "all"
+  BaseSel = "all2"
   LaySel = "all"
   ProjKeyMode = "full"
   DbetaKeyMode = "full"
